@@ -49,10 +49,11 @@ def lib_table():
     return m.sense_ascq_dict
 
 
-def construct(buf, print_data=False, which=0):
+def construct(buf, print_data=False, which=0, src=None):
     cls = classes_under_test()[which]
     try:
-        return cls(bytearray(buf), print_data) if print_data else cls(bytearray(buf))
+        src = bytearray(buf) if src is None else src
+        return cls(src, print_data) if print_data else cls(src)
     except Exception as e:  # noqa
         raise Violation("exc:%s@construct" % type(e).__name__, {"buf": bytes(buf).hex(), "error": repr(e)[:200]})
 
@@ -108,12 +109,22 @@ def verify(exc, buf, cheap=False):
 
 def check_sequence(cases):
     """several CheckCondition objects alive at once: each must keep reporting its own buffer."""
-    excs = [construct(c["buf"], c["print"], c["which"]) for c in cases]
+    srcs = [bytearray(c["buf"]) for c in cases]
+    excs = [construct(c["buf"], c["print"], c["which"], src=b) for c, b in zip(cases, srcs)]
     nt = False
     for e, c in zip(excs, cases):
         nt = verify(e, c["buf"]) or nt
     for e, c in zip(reversed(excs), reversed(cases)):
         verify(e, c["buf"], cheap=True)
+    # the owner of a sense buffer reuses it for the next command: an error object created earlier keeps
+    # reporting the sense it was created from
+    for b, c in zip(srcs, cases[1:] + cases[:1]):
+        b[:] = (c["buf"] + bytes(len(b)))[:len(b)]
+    for e, c in zip(excs, cases):
+        try:
+            verify(e, c["buf"], cheap=True)
+        except Violation as v:
+            raise Violation(v.kind + ":after_buffer_reuse", v.detail)
     return len(cases) >= 2, ("sequence",)
 
 
